@@ -20,6 +20,7 @@ static struct world {
     int cleared, mem_freed, book_freed;
     void *mem, *book;
     int lock_ok[SX_MAXT], lock_fail[SX_MAXT], uniq_true[SX_MAXT];
+    int w_set[SX_MAXT];
     void *pmem[SX_MAXT]; int pallocs, pcleared;      /* allocations a thread made into its own owning pointer (alloc(own)): each is private to that thread */
 } W;
 
@@ -70,7 +71,7 @@ static void setup(void)
     memset(W.mem, 0x11, 16);
     for (t = 0; t < S.nthreads; t++) {
         if (S.has_own[t]) { cstl_shared_ptr_share(&W.main_sp, &W.t[t].own); W.hold[t][OWN] = 1; }
-        if (S.has_w[t]) cstl_weak_ptr_from(&W.t[t].w, &W.main_sp);
+        if (S.has_w[t]) { cstl_weak_ptr_from(&W.t[t].w, &W.main_sp); W.w_set[t] = 1; }
     }
     cstl_shared_ptr_reset(&W.main_sp);
 }
@@ -116,7 +117,7 @@ static void body(int t)
                 W.hold[t][TMP] = 1;
             } else {
                 W.lock_fail[t]++;
-                if (cstl_guarded_ptr_get(&L->w.data) != NULL)
+                if (W.w_set[t])       /* the weak pointer refers to the shared memory (it was set up so and this thread has not reset it) */
                     for (u = 0; u < S.nthreads; u++) for (s = 0; s < 2; s++)
                         if (cover[u][s] >= 0 && W.hold[u][s] && (int)W.holdgen[u][s] == cover[u][s])
                             sx_fail("thread %d: lock returned no owner although thread %d held an owner during the whole call", t, u);
@@ -125,7 +126,7 @@ static void body(int t)
             break;
         }
         case P_WEAKFROM: cstl_weak_ptr_from(&L->w2, &L->own); cstl_weak_ptr_reset(&L->w2); break;
-        case P_WEAKRESET: cstl_weak_ptr_reset(&L->w); break;
+        case P_WEAKRESET: W.w_set[t] = 0; cstl_weak_ptr_reset(&L->w); break;
         case P_UNIQUE:
             if (cstl_shared_ptr_unique(&L->own)) W.uniq_true[t]++;
             else if (W.pmem[t]) sx_fail("thread %d: the only owner of its private allocation is not unique", t);
@@ -135,7 +136,7 @@ static void body(int t)
              * the shared memory must be unaffected: the new memory must be a different, live block that nobody else sees. */
             void *m; const sx_block *b; int u;
             if (W.hold[t][OWN]) { W.hold[t][OWN] = 0; W.holdgen[t][OWN]++; }
-            cstl_shared_ptr_alloc(&L->own, 16, on_clear_private);
+            cstl_shared_ptr_alloc(&L->own, 40, on_clear_private);       /* another size than the shared memory: nothing invites the library to recycle that block */
             m = cstl_shared_ptr_get(&L->own);
             W.pallocs++;
             if (m == NULL) { sx_fail("thread %d: alloc(own) left the pointer empty although no allocation failed", t); break; }
@@ -144,7 +145,7 @@ static void body(int t)
             if (m == W.mem && !W.mem_freed) sx_fail("thread %d: alloc(own) handed out the shared managed memory again although it has not been freed", t);
             for (u = 0; u < S.nthreads; u++) if (u != t && W.pmem[u] == m) sx_fail("thread %d: alloc(own) handed out the memory thread %d's private allocation occupies", t, u);
             W.pmem[t] = m;
-            memset(m, 0x22, 16);
+            memset(m, 0x22, 40);
             break;
         }
         }
